@@ -423,6 +423,15 @@ func (ev *SpecEnv) binary(x *ast.BinaryExpr) (Val, types.Type) {
 	av = ev.coerce(av, bv)
 	bv = ev.coerce(bv, av)
 	a, b := ev.scalar(av, x.X), ev.scalar(bv, x.Y)
+	if a.S.K == SBV && b.S.K == SBV && (x.Op == token.SHL || x.Op == token.SHR) && a.S.W != b.S.W {
+		// Go allows any unsigned/int count type: resize the count to the width of the shifted operand (saturating)
+		if b.S.W < a.S.W {
+			b = BVZeroExt(a.S.W-b.S.W, b)
+		} else {
+			big1 := BVCmp("bvuge", b, BVC(big.NewInt(int64(a.S.W)), b.S.W))
+			b = Ite(big1, BVC(big.NewInt(int64(a.S.W)), a.S.W), BVExtract(a.S.W-1, 0, b))
+		}
+	}
 	if a.S.K == SBV || b.S.K == SBV {
 		if !a.S.Eq(b.S) {
 			ev.fail("bit-vector width mismatch in %s: %s vs %s", exprString(x), a.S, b.S)
